@@ -212,34 +212,6 @@ def _loop(spec, res):
         res.label("point on / next to the loop axis")
         if worst_axis > 1e-8:
             res.fail("C20.loop_near_axis", f"evaluation point within 1e-3 radii of the loop axis: closed form gives {got[near_axis][0].tolist()} (error {worst_axis:.3e} of the scale)")
-        if spec.get("many"):
-            # a scan: a prime number of positions (more than 2**22 / number of sites) in one call; the parts due to the sheet
-            # currents must equal the direct sums, and one call must equal the same positions evaluated in pieces
-            res.label("scan with very many positions in one call")
-            nsite = len(dev.points)
-            M = next(m for m in range(int(2 ** 22 / nsite) + 1500, 10 ** 7) if all(m % q for q in range(2, int(m ** 0.5) + 1)))
-            k = np.arange(M)
-            lo, hi = dev.points.min(axis=0) - 1.0 * sL, dev.points.max(axis=0) + 1.0 * sL
-            P2 = np.stack([lo[0] + (hi[0] - lo[0]) * ((k * 0.6180339887) % 1.0), lo[1] + (hi[1] - lo[1]) * ((k * 0.7548776662) % 1.0)], axis=1)
-            zsc = spec["z0"] + 0.8 * sL
-            vp = sol.vector_potential_at_position(P2, zs=zsc, units="T * m", with_units=False, return_sum=False)
-            Bz = np.asarray(sol.field_at_position(P2, zs=zsc, units="T", with_units=False))
-            worst = 0.0
-            for a0 in range(0, M, 4096):
-                sl = slice(a0, min(a0 + 4096, M))
-                ev = np.stack([P2[sl, 0] * L, P2[sl, 1] * L, np.full(sl.stop - sl.start, zsc * L)], axis=1)
-                R = np.linalg.norm(ev[:, None, :] - pos_m[None, :, :], axis=2)
-                for name, K in (("supercurrent_density", Ks), ("normal_current_density", Kn)):
-                    want = (orc.MU0 / (4 * np.pi)) * (areas_m2[None, :] / R) @ K
-                    mag = (orc.MU0 / (4 * np.pi)) * ((areas_m2[None, :] / R) @ np.abs(K)).sum(axis=1)
-                    got = np.asarray(vp[name])[sl]
-                    worst = max(worst, float(np.max(np.abs(got[:, :2] - want) / (mag[:, None] + 1e-300))))
-            res.stat("potential_vs_direct_many", worst)
-            if worst > 1e-9:
-                res.fail("C20.potential_part", f"scan of {M} positions in one call: vector potential of the sheet currents differs from (mu0/4pi) sum K a / r by {worst:.3e}")
-            piece = np.concatenate([np.asarray(sol.field_at_position(P2[a0:a0 + 7001], zs=zsc, units="T", with_units=False)) for a0 in range(0, M, 7001)])
-            if Bz.shape != piece.shape or np.max(np.abs(Bz - piece)) > 1e-9 * (np.max(np.abs(piece)) + 1e-300):
-                res.fail("C20.field_part", f"scan of {M} positions: the field from one call differs from the same positions evaluated in pieces")
     res.nontrivial = len(pts) >= 3
     return res
 
@@ -402,5 +374,33 @@ def _solution(spec, res):
         tot = sum(np.asarray(v) for v in vp.values())
         if np.max(np.abs(np.asarray(vsum) - tot)) > 1e-12 * (np.max(np.abs(tot)) + 1e-300):
             res.fail("C20.potential_sum", "return_sum=True is not the sum of the applied, supercurrent and normal-current parts")
+        if spec.get("many"):
+            # a scan: a prime number of positions (more than 2**22 / number of sites) in one call; the parts due to the sheet
+            # currents must equal the direct sums, and one call must equal the same positions evaluated in pieces
+            res.label("scan with very many positions in one call")
+            nsite = len(dev.points)
+            M = next(m for m in range(int(2 ** 22 / nsite) + 1500, 10 ** 7) if all(m % q for q in range(2, int(m ** 0.5) + 1)))
+            k = np.arange(M)
+            lo, hi = dev.points.min(axis=0) - 1.0 * sL, dev.points.max(axis=0) + 1.0 * sL
+            P2 = np.stack([lo[0] + (hi[0] - lo[0]) * ((k * 0.6180339887) % 1.0), lo[1] + (hi[1] - lo[1]) * ((k * 0.7548776662) % 1.0)], axis=1)
+            zsc = spec["z0"] + 0.8 * sL
+            vp = sol.vector_potential_at_position(P2, zs=zsc, units="T * m", with_units=False, return_sum=False)
+            Bz = np.asarray(sol.field_at_position(P2, zs=zsc, units="T", with_units=False))
+            worst = 0.0
+            for a0 in range(0, M, 4096):
+                sl = slice(a0, min(a0 + 4096, M))
+                ev = np.stack([P2[sl, 0] * L, P2[sl, 1] * L, np.full(sl.stop - sl.start, zsc * L)], axis=1)
+                R = np.linalg.norm(ev[:, None, :] - pos_m[None, :, :], axis=2)
+                for name, K in (("supercurrent_density", Ks), ("normal_current_density", Kn)):
+                    want = (orc.MU0 / (4 * np.pi)) * (areas_m2[None, :] / R) @ K
+                    mag = (orc.MU0 / (4 * np.pi)) * ((areas_m2[None, :] / R) @ np.abs(K)).sum(axis=1)
+                    got = np.asarray(vp[name])[sl]
+                    worst = max(worst, float(np.max(np.abs(got[:, :2] - want) / (mag[:, None] + 1e-300))))
+            res.stat("potential_vs_direct_many", worst)
+            if worst > 1e-9:
+                res.fail("C20.potential_part", f"scan of {M} positions in one call: vector potential of the sheet currents differs from (mu0/4pi) sum K a / r by {worst:.3e}")
+            piece = np.concatenate([np.asarray(sol.field_at_position(P2[a0:a0 + 7001], zs=zsc, units="T", with_units=False)) for a0 in range(0, M, 7001)])
+            if Bz.shape != piece.shape or np.max(np.abs(Bz - piece)) > 1e-9 * (np.max(np.abs(piece)) + 1e-300):
+                res.fail("C20.field_part", f"scan of {M} positions: the field from one call differs from the same positions evaluated in pieces")
     res.nontrivial = len(pts) >= 3
     return res
